@@ -36,6 +36,8 @@ def altairChart (sp : Space) (heap : Heap) (p : Portrayal) : Except Err AltairCh
   | .ok rows =>
     let first := firstRow rows
     let hasSize := Dict.hasKey first "size"
+    -- `30000 / length**2` with `length = min(space.width, space.height)`: ZeroDivisionError on a space of width or height 0
+    if !hasSize && min sp.w sp.h == 0 then .error .zeroDivision else
     .ok { rows,
           xyType := if sp.fam = .cs then "nominal" else "ordinal",
           tooltip := (Dict.keys first).filter fun k => !invalidTooltips.contains k,
